@@ -8,7 +8,7 @@
    [run (init c t0) ops] is the list of their results, [final (init c t0) ops] the
    state afterwards; [capacity s now] is the code's maxFlight() evaluated at [now]. *)
 From Coq Require Import List ZArith QArith Bool.
-From GZ Require Import Lib.RollingWindow Lib.RollingWindowSpec C02.Model C02.Conc C02.Proofs C02.ProofsHist C02.ProofsConc C02.ProofsConcHot C02.ProofsConcSat C02.ProofsConcAvg C02.Wrap C02.ProofsWrap C02.Check C02.ProofsRef C02.ProofsEpisode C02.World C02.ProofsWorld.
+From GZ Require Import Lib.RollingWindow Lib.RollingWindowSpec C02.Model C02.Conc C02.Proofs C02.ProofsHist C02.ProofsConc C02.ProofsConcHot C02.ProofsConcSat C02.ProofsConcAvg C02.Wrap C02.ProofsWrap C02.Check C02.ProofsRef C02.ProofsEpisode C02.World C02.ProofsWorld C02.ProofsWrapHist.
 Import ListNotations.
 Open Scope Z_scope.
 
@@ -430,6 +430,35 @@ Theorem certificates_ignore_traffic : forall evs,
   wcerts (wfinal w0 evs) = wcerts (wfinal w0 (filter is_config evs)).
 Proof. exact certs_ignore_traffic. Qed.
 
+(* ------------------------------------------------------------------ *)
+(* 14. The wrappers over REQUEST HISTORIES with overlapping requests (C02/ProofsWrapHist.v; round 4).  A history is any
+      list of  HStart now cpu1 cpu2 o  (a request arrives; its handler, if it runs, is going to do [o]: status codes /
+      error / panic) and  HEnd r now  (the handler of the request started by event r ends), in any order.  [hrun] is what
+      SheddingHandler / UnarySheddingInterceptor make of it.  For EVERY such history:
+      - the Allow / Pass / Fail history handed to the shedder names every promise at most once - the hypothesis of
+        flying_counts_open_requests is met by construction;
+      - the shedder's in-flight count is the number of let-in requests whose handler has not ended;
+      - a let-in request whose handler is still running has not been resolved; one whose handler has ended - normally or by
+        a panic - has been resolved, by exactly one operation: [resolve_op], which is Fail for the overload class (REST: last
+        status written = 503; zRPC: errors.Is(err, context.DeadlineExceeded)) and Pass for every other outcome. *)
+Theorem overlapping_wrapped_requests : forall c t0 evs s st ops, cenabled c = true ->
+  hrun (init c t0) [] evs = (s, st, ops) ->
+  s = final (init c t0) ops /\ NoDup (res_ids ops) /\
+  flying s = Z.of_nat (count_open st) /\
+  (forall r id o, nth_error st r = Some (ROpen id o) -> ~ In id (res_ids ops)) /\
+  (forall r id o, nth_error st r = Some (RClosed id o) ->
+     In id (res_ids ops) /\ exists now, In (resolve_op o id now) ops).
+Proof. exact wrapped_histories_core. Qed.
+
+Theorem wrapper_resolution_class : forall o id now,
+  (wout_overload_class o = true -> resolve_op o id now = OFail id) /\
+  (wout_overload_class o = false -> resolve_op o id now = OPass id now).
+Proof. exact resolve_op_class. Qed.
+
+Theorem all_handlers_ended_nothing_in_flight : forall c t0 evs s st ops, cenabled c = true ->
+  hrun (init c t0) [] evs = (s, st, ops) -> count_open st = 0%nat -> flying s = 0.
+Proof. exact all_ended_nothing_in_flight. Qed.
+
 Print Assumptions shed_only_if_hot_and_loaded.
 Print Assumptions shed_when_saturated.
 Print Assumptions flying_conservation_wf.
@@ -457,6 +486,8 @@ Print Assumptions birth_certificate.
 Print Assumptions disabled_never_sheds_wherever_disable_stands.
 Print Assumptions built_before_disable_stays_live.
 Print Assumptions certificates_ignore_traffic.
+Print Assumptions overlapping_wrapped_requests.
+Print Assumptions all_handlers_ended_nothing_in_flight.
 
 (* ------------------------------------------------------------------ *)
 (* The hypotheses are satisfiable by concrete, non-trivial histories.    *)
@@ -644,3 +675,14 @@ Example ex_world_traffic :
   let evs := [XGroup g; XGet 0 7 B; XDisable; XGet 0 8 B] ++ burst 0%nat ++ burst 1%nat in
   nth_error (wrun w0 evs) 34 = Some (YRes RShed) /\ nth_error (wrun w0 evs) 65 = Some (YRes RAdmit).
 Proof. vm_compute. split; reflexivity. Qed.
+
+(* three overlapping wrapped requests: a REST handler that writes 500 then 503 and panics, a zRPC handler that times out,
+   a REST handler that writes nothing; they end in the order 2, 0, then a stray HEnd for 2 again (nothing happens);
+   request 1 is still running: one in flight, promises 0 and 2 resolved once each (Fail, Pass) *)
+Example ex_wrapped_history :
+  let evs := [HStart B 0 0 (WoRest (mkRO [500; 503] true)); HStart B 0 0 (WoRpc GDeadline);
+              HStart (B + 1) 0 0 (WoRest (mkRO [] false)); HEnd 2 (B + 5 * ms); HEnd 0 (B + 6 * ms); HEnd 2 (B + 7 * ms)] in
+  let '(s, st, ops) := hrun (init cfg1 B) [] evs in
+  ops = [OAllow B 0 0; OAllow B 0 0; OAllow (B + 1) 0 0; OPass 2 (B + 5 * ms); OFail 0] /\
+  count_open st = 1%nat /\ flying s = 1.
+Proof. vm_compute. repeat split; reflexivity. Qed.
